@@ -156,6 +156,27 @@ func expect[T any](c *ctx, helper string, proto int, accessor string, v resp.V, 
 	}
 }
 
+// refuse checks that an accessor does not invent a value for a reply whose content has no such reading: it must return an
+// error (a panic is a violation too).
+func refuse[T any](c *ctx, helper, accessor string, v resp.V, viaMsg func(*rueidis.RedisMessage) (T, error)) {
+	msg, wire := c.decode(v)
+	c.run.Case(accessor+"|refuse|"+string(wire), true)
+	c.run.Observe("checks_"+accessor+"_must_refuse", 1)
+	var got T
+	var err error
+	var pan any
+	func() {
+		defer func() { pan = recover() }()
+		got, err = viaMsg(&msg)
+	}()
+	c.run.Observe("accessor_calls", 1)
+	if pan != nil || err == nil {
+		key := fmt.Sprintf("%s|%s|RESP2|%s", accessor, helper, trunc(shapes.Compact(v), 300))
+		c.run.Violation("value-invented", key, map[string]any{"accessor": "RedisMessage." + accessor, "helper": helper, "reply": shapes.Compact(v),
+			"wire": fmt.Sprintf("%q", wire), "got": show(got), "want": "an error: the string is not a decimal integer", "panic": fmt.Sprint(pan)})
+	}
+}
+
 // families written out in the evidence file (first non-trivial case of each)
 var sampled = map[string]bool{"XREAD/3": true, "ZSCORES/2": true, "FT.SEARCH/2": true, "FT.SEARCH/3": true, "GEOSEARCH/3": true, "FT.AGGREG/3": true}
 
@@ -350,6 +371,29 @@ func (c *ctx) scalars(r *rand.Rand) {
 	if x >= 0 {
 		expect(c, "INT", 2, "AsUint64", resp.Int(x), true, uint64(x), (*rueidis.RedisMessage).AsUint64, rueidis.RedisResult.AsUint64)
 	}
+	// decimal strings another client may have stored in a non-canonical form: leading zeros, explicit plus sign.
+	// Their content is still the decimal number (never an octal / hexadecimal / binary reading of it).
+	if x > math.MinInt64 {
+		abs, sign := x, ""
+		if x < 0 {
+			abs, sign = -x, "-"
+		}
+		digits := strconv.FormatInt(abs, 10)
+		forms := []string{sign + "0" + digits, sign + "00" + digits, sign + "000000000000000000000" + digits}
+		if x >= 0 {
+			forms = append(forms, "+"+digits, "+0"+digits)
+		}
+		nc := forms[r.Intn(len(forms))]
+		expect(c, "INT-STRING-NONCANONICAL", 2, "AsInt64", resp.Bulk(nc), true, x, (*rueidis.RedisMessage).AsInt64, rueidis.RedisResult.AsInt64)
+		if x >= 0 && nc[0] != '+' {
+			expect(c, "INT-STRING-NONCANONICAL", 2, "AsUint64", resp.Bulk(nc), true, uint64(x), (*rueidis.RedisMessage).AsUint64, rueidis.RedisResult.AsUint64)
+		}
+	}
+	// strings that are not decimal integers must not be given an integer reading (0x.., 0b.., 0o.., digit separators)
+	notDec := []string{"0x1f", "0X1F", "0b101", "0o17", "1_000", "0x", "1e3", "0x7fffffffffffffff", "-0x10", "١٢٣", "12 ", " 12", "1.0", ""}
+	nd := notDec[r.Intn(len(notDec))]
+	refuse(c, "NOT-A-DECIMAL-STRING", "AsInt64", resp.Bulk(nd), (*rueidis.RedisMessage).AsInt64)
+	refuse(c, "NOT-A-DECIMAL-STRING", "AsUint64", resp.Bulk(nd), (*rueidis.RedisMessage).AsUint64)
 	u := r.Uint64()
 	if r.Intn(4) == 0 {
 		u = []uint64{0, math.MaxUint64, 1 << 63, 1<<63 - 1}[r.Intn(4)]
